@@ -249,6 +249,63 @@ def collect(ctx, pool, it, total, budget_s, name, traces=None):
     return agg
 
 
+# --------------------------------------------------------------------------- code -> spec: random histories judged by TLC
+def trace_validation(ctx, pool, flags, unsafe, comps, count, budget_s):
+    rng = ctx.rng
+    jobs = [lib.gen_history(rng, rng.choice([3, 4, 4, 5, 6])) for _ in range(count)]
+    sent, it = pool.run(jobs, {}, unsafe, comps)
+    obs = []
+    agg = collect(ctx, pool, it, len(sent), budget_s, "random-histories", traces=obs)
+    # group the observations of one history: they were appended in order per job
+    hists, cur = [], []
+    for o in obs:
+        if o["step"] == 0 and cur:
+            hists.append(cur)
+            cur = []
+        cur.append(o)
+    if cur:
+        hists.append(cur)
+    d = ctx.tmpdir("tr")
+    path = os.path.join(d, "traces.ndjson")
+    with open(path, "w") as f:
+        for tid, h in enumerate(hists, 1):
+            f.write(json.dumps(lib.trace_line(tid, h[0]["hist"]["prot"], h)) + "\n")
+    if not hists:
+        return agg
+    cfg = os.path.join(d, "trace.cfg")
+    if os.environ.get("C17_FLIP"):       # development aid: judge with the other variant, drift must appear
+        flags = {k: not v for k, v in flags.items()}
+    tlc.write_cfg(cfg, spec="TraceSpec", constants={"TreeSet": "<- TreesTiny", "Ops": "<- OpsAll", "MaxLen": 12, "Prots": "<- AllProts",
+                                                    "FixDelete": "TRUE" if flags["FixDelete"] else "FALSE",
+                                                    "FixPatch": "TRUE" if flags["FixPatch"] else "FALSE"})
+    res = tlc.run("WorkTreeConfTrace.tla", cfg, workers=1, timeout=1500, env={"TRACE_FILE": path})
+    ctx.add_tlc(f"WorkTreeConfTrace ({len(hists)} recorded histories)", res, require_ok=False)
+    verdicts = {v[1]: v for v in tlc.extract_printed(res.output, "VERDICT")}
+    if len(verdicts) != len(hists):
+        raise MachineryError(f"trace validation: {len(verdicts)} verdicts for {len(hists)} histories\n{res.output[-3000:]}")
+    ndrift = nbad = 0
+    for tid, h in enumerate(hists, 1):
+        _, _, verdict, fail_at, drift_at = verdicts[tid]
+        ctx.validated(1)
+        if str(verdict) != "ok":
+            nbad += 1
+            st = h[min(int(fail_at), len(h)) - 1]
+            # the worker judged the same step on the real directory; a verdict it did not reach is reported here
+            if not st.get("violated"):
+                ctx.violation(f"{lib.SITE[st['op']]}|{verdict}|judged by the specification on a recorded history",
+                              f"TLC: {verdict} violated at step {fail_at} of {lib.seq_show(st['hist']['steps'])}",
+                              {"kind": "history", "prot": st["hist"]["prot"], "steps": st["hist"]["steps"]})
+        elif int(drift_at):
+            ndrift += 1
+            st = h[int(drift_at) - 1]
+            ctx.drift_event(f"random history leaves the specification at step {drift_at}: "
+                            f"[ntfs={int(st['hist']['prot']['ntfs'])} hfs={int(st['hist']['prot']['hfs'])}] {lib.seq_show(st['hist']['steps'])} -> {st['res']} {st['exc'][:80]}")
+    agg.update(histories=len(hists), rejected_by_property=nbad, drift=ndrift)
+    ctx.cov["trace_validation"] = agg
+    ctx.log(f"trace validation: {len(hists)} histories judged by TLC, {nbad} with a property verdict, {ndrift} drift")
+    return agg
+
+
 # --------------------------------------------------------------------------- run
 def run(ctx):
     pool = Pool(ctx)
@@ -276,11 +333,13 @@ def run(ctx):
         order = ctx.pick(["names1", "tiny3", "mid2"], ["names1", "tiny3", "mid2", "core2", "small3", "full2"])
         if os.environ.get("C17_ONLY"):
             order = os.environ["C17_ONLY"].split(",")
-        plan = [(nm,) + plans[nm] for nm in order]
-        for name, consts, budget in plan:
+        plan = [(nm,) + plans.get(nm, (None, 0)) for nm in order]
+        for name, consts, budget in [p for p in plan if p[0] != "traces"]:
             st = graph_replay(ctx, pool, name, consts, flags, unsafe, comps, budget)
             if st.get("truncated"):
                 exhaustive = False
+        if not os.environ.get("C17_ONLY") or "traces" in os.environ.get("C17_ONLY", ""):
+            trace_validation(ctx, pool, flags, unsafe, comps, ctx.pick(400, 6000), ctx.pick(15, 240))
     finally:
         pool.close()
     ctx.cov["rule"] = ("non-trivial = a behaviour in which an operation was refused/failed or left something in the "
